@@ -11,3 +11,5 @@ import SkoolVerif.Props.C14
 import SkoolVerif.Props.C11
 import SkoolVerif.Props.C04
 import SkoolVerif.Props.C03
+import SkoolVerif.Props.C08
+import SkoolVerif.Gen.CDispatch
